@@ -195,6 +195,47 @@ def exit_cases():
     return out
 
 
+def exit_loopback_cases():
+    """The real request_association / AssociationRequester.request over loopback: how the block is left when the peer
+    accepted the association - with usable contexts, and with every proposed context refused (an association
+    without contexts is still an association: leaving it normally releases it, leaving it through an error aborts it)."""
+    from pynetdicom2 import applicationentity as aemod, sopclass
+    out = []
+    CT = '1.2.840.10008.5.1.4.1.1.2'
+    for contexts_accepted in (True, False):
+        for body_raises in (False, True):
+            srv = aemod.AE('SERVER', 0).add_scp(sopclass.verification_scp)
+            log = []
+            with loopback.serving(srv) as port:
+                cli = aemod.ClientAE('CLIENT')
+                if contexts_accepted:
+                    cli.add_scu(sopclass.verification_scu)
+                else:
+                    cli.add_scu(sopclass.storage_scu, [CT])          # the server serves no storage class
+                cli.timeout = 5
+                n_ctx = None
+                try:
+                    with cli.request_association(loopback.remote(port)) as assoc:
+                        n_ctx = len(assoc.accepted_contexts)
+                        for name in ('release', 'abort', 'kill'):
+                            def rec(*a, _name=name, _f=getattr(assoc, name), **kw):
+                                log.append(_name)
+                                return _f(*a, **kw)
+                            setattr(assoc, name, rec)
+                        if body_raises:
+                            raise ValueError('body')
+                except ValueError:
+                    pass
+                except Exception as e:  # noqa
+                    log.append('unexpected:%r' % (e,))
+            first = [x for x in log if x in ('release', 'abort', 'kill')]
+            ending = {'release': 'DoRelease', 'abort': 'DoAbort', 'kill': 'DoKill'}.get(first[0] if first else '', 'DoKill')
+            out.append(('(ExitCase true %s %s)' % (cbool(body_raises), ending),
+                        dict(scenario='exit-over-loopback', contexts_accepted=contexts_accepted, n_contexts=n_ctx,
+                             body_raises=body_raises, log=log)))
+    return out
+
+
 def loopback_cases(rng, tier):
     """End to end over real TCP: refusal triples, aborts, release."""
     from pynetdicom2 import applicationentity as aemod, sopclass, exceptions
@@ -212,6 +253,7 @@ def loopback_cases(rng, tier):
                 served.append(1)
                 return super(Server, self).on_receive_echo(context)
         srv = Server('SERVER', 0).add_scp(sopclass.verification_scp)
+        srv.handle_error = lambda *a: None            # socketserver would print the refusal's traceback
         seen = None
         with loopback.serving(srv) as port:
             cli = aemod.ClientAE('CLIENT').add_scu(sopclass.verification_scu)
@@ -256,7 +298,7 @@ def main(tier, seed):
     dec = common.Decision('C14', tier, seed)
     common.static_gate(dec, ['Properties/C14.v'], ['Proofs/AssocProofs.v', 'Proofs/PduProofs.v', 'Proofs/FsmProofs.v'])
     rng = random.Random(seed)
-    obs = err_cases(rng, tier) + refuse_cases(rng, tier) + exit_cases()
+    obs = err_cases(rng, tier) + refuse_cases(rng, tier) + exit_cases() + exit_loopback_cases()
     lb = loopback_cases(rng, tier)
     obs += lb
     run = common.CoqRun('C14')
@@ -269,7 +311,7 @@ def main(tier, seed):
     cov['rule'] = ('every standard (result, source, reason) + sampled others while awaiting the reply; abort (source, reason) '
                    'pairs and release indicated before / between / after DIMSE exchanges of a running service; the acceptor '
                    'with accepting and refusing applications (a message queued behind the request must not be served); the '
-                   'four exit paths of request_association; refusals and aborts over real loopback TCP; distinct = distinct cases')
+                   'four exit paths of request_association (recorder) and the real ones over loopback with usable / with all contexts refused; refusals and aborts over real loopback TCP; distinct = distinct cases')
     cov['distribution'] = dict(stub_level=len(obs) - len(lb), loopback=len(lb))
     cov['samples'] = [obs[0][1], lb[0][1]]
     spec_set = set(failing['spec'])
